@@ -2251,20 +2251,35 @@ impl<'store> AnnotationStore {
                         }
                     }
 
+                    //(an item may already be gone because an earlier removal cascaded to it)
                     for resource in remove_resources {
-                        self.remove(resource)?;
+                        if self.resource(resource).is_some() {
+                            self.remove(resource)?;
+                        }
                     }
                     for annotation in remove_annotations {
-                        self.remove(annotation)?;
+                        if self.annotation(annotation).is_some() {
+                            self.remove(annotation)?;
+                        }
                     }
                     for (set, key) in remove_keys {
-                        self.remove_key(set, key, true)?;
+                        if self.dataset(set).and_then(|s| s.key(key)).is_some() {
+                            self.remove_key(set, key, true)?;
+                        }
                     }
                     for (set, data) in remove_data {
-                        self.remove_data(set, data, true)?;
+                        if self
+                            .dataset(set)
+                            .and_then(|s| s.annotationdata(data))
+                            .is_some()
+                        {
+                            self.remove_data(set, data, true)?;
+                        }
                     }
                     for dataset in remove_datasets {
-                        self.remove(dataset)?;
+                        if self.dataset(dataset).is_some() {
+                            self.remove(dataset)?;
+                        }
                     }
 
                     //just return an empty iterator
